@@ -150,3 +150,12 @@ PROPS['C13'] = {
 }
 PROPS['C08']['parts'] += split('harness/queue.cpp', 'C08/', 8, 2, ['g17'])
 PROPS['C11']['parts'] += [{'src': 'harness/queue.cpp', 'prefix': 'C11/', 'variants': ['g17'], 'defs': ['VERIF_ONLY=11', 'VERIF_SUB=0']}]
+
+PROPS['C10'] = {
+    'title': 'Copies are independent, moves transfer, swaps exchange; results fully functional',
+    'level': 'model_checking',
+    'parts': [{'src': 'harness/pool.cpp', 'prefix': 'C10/', 'variants': ['g17'], 'quick_variants': ['g17O0'], 'defs': ['VERIF_SUB=%d' % i]} for i in range(6)],
+    'rule': 'BFS over histories on a pool of 3 objects of one type (CallbackList, EventDispatcher, EventQueue, HeterCallbackList, HeterEventDispatcher, HeterEventQueue, dispatcher/queue with MixinFilter) placed into storage pre-filled with 0xFF/0x00/0xA5: default/copy/move construction, copy/move assignment (incl. self copy-assign), member and ADL swap (incl. self), destroy, add, remove by position (handle obtained from forEach), churn (generation counters pushed apart), trigger with one nested action, enqueue/process/wait, appendFilter; after every operation every live object is triggered and compared with the model; fresh copies/moves of queues must report empty and work; ledger of callback copies',
+    'assumptions': H_ASSUME + ['after a move the source only has to stay valid: the model adopts what it shows', 'whether filters travel with swap is left open (member swap exchanges the listener map only, std::swap moves everything): the model adopts what each object shows'],
+    'bounds': {'quick': 'pool of 3, K=2 listeners per object, prior memory 0xFF, depth 5, one nested action', 'thorough': 'all three memory patterns, depth 7, plus near-wrap generation counters'},
+}
